@@ -173,7 +173,56 @@ def cg_case(rng, nmax=8, nmin=1, ty=None):
     case["ctrl"] = _controller(rng, ty, n, float(np.linalg.norm(g0)), float(np.max(np.abs(g0))) if n else 0.0,
                                e(x0), e(xs), big, allow_none=not bnone)
     case["nreset"] = rng.choice([1, 2, 3, 4, 5, 5, 20, 20, 0])
+    if case["ctrl"]["limit"] is not None and rng.random() < 0.3:
+        case["reuse"] = True        # the controller object has already been used for another run
     return case
+
+
+def cg_reuse_cases(rng, count):
+    """the controller object has served another run before; convergence_level >= 2 and tolerances loose enough to be
+    met well before exact termination, so that leftover counters/tolerances/memory of the first run would show"""
+    res = []
+    for _ in range(count):
+        c = cg_case(rng, nmax=7, nmin=4, ty=rng.choice(CTRL_TYPES))
+        if c.get("b") is None:
+            continue
+        cj = c["ctrl"]
+        cj["level"] = rng.choice([2, 2, 3])
+        cj["limit"] = 2 * c["n"] + 6
+        if cj["type"] == "gradnorm":
+            cj["tol_abs"] = None
+            cj["tol_rel"] = fstr(Fraction(1, 2 ** rng.randint(2, 7)))
+        elif cj["type"] == "deltae":
+            cj["tol"] = fstr(Fraction(1, 2 ** rng.randint(3, 10)))
+        c["reuse"] = True
+        c["family"] = str(c.get("family")) + ":reuse"
+        res.append(c)
+    return res
+
+
+def cg_at_solution_cases(rng, count):
+    """class E: the start position already solves the system exactly (b := A x0 in integers); a controller that does
+    not stop in `start` then sends CG through its `previous_gamma == 0` exit"""
+    res = []
+    for _ in range(count):
+        n = rng.randint(1, 4)
+        cplx = rng.random() < 0.4
+        re, im, fam = hpd(rng, n, cplx)
+        xr = _vec(rng, n, -3, 3)
+        xi = _vec(rng, n, -3, 3, False) if cplx else [0] * n
+        imz = im if cplx else [[0] * n for _ in range(n)]
+        br = [sum(re[i][j] * xr[j] - imz[i][j] * xi[j] for j in range(n)) for i in range(n)]
+        bi = [sum(re[i][j] * xi[j] + imz[i][j] * xr[j] for j in range(n)) for i in range(n)]
+        case = dict(op="cg", n=n, cplx=cplx, A=re, family="exact-at-solution", hpd=True, klass="E", b=br, x=xr, P=None)
+        if cplx:
+            case.update(Ai=im, bi=bi, xi=xi)
+        ty = rng.choice(["deltae", "absdeltae", "stochastic", "gradnorm"])
+        case["ctrl"] = _controller(rng, ty, n, 4.0, 4.0, 0.0, -4.0, False)
+        if ty == "gradnorm":        # no tolerance: only the limit could stop it in `start`
+            case["ctrl"].update(tol_abs=None, tol_rel=None, limit=rng.randint(1, 5))
+        case["nreset"] = rng.choice([1, 5, 20])
+        res.append(case)
+    return res
 
 
 def cg_exact_cases(rng, count):
@@ -354,7 +403,14 @@ def ctrl_case(rng, ty=None):
         cj["tol"] = fstr(pick(diffs) if rng.random() < 0.4 else _dy(rng, 4, -12, 3, signed=rng.random() < 0.1))
         if ty == "stochastic":
             cj["memlen"] = rng.choice([0, 1, 2, 3, 5, 10])
-    return dict(op="ctrl", ctrl=cj, obs=obs)
+    case = dict(op="ctrl", ctrl=cj, obs=obs)
+    if rng.random() < 0.25:          # the same object is started a second time after this earlier history
+        k = rng.randint(1, 6)
+        case["pre"] = [[fstr(_dy(rng, 5, -12, 2)), fstr(_dy(rng, 5, -12, 2)), fstr(_dy(rng, 5, -3, 3, signed=True))]
+                       for _ in range(k)]
+        for o in case["pre"]:
+            o[1] = o[0]
+    return case
 
 
 def ctrl_first_near(case, margin):
@@ -436,6 +492,10 @@ def ie_cases(rng, count):
         ty = rng.choice(["gradnorm"] * 6 + ["gradinf", "absdeltae", "stochastic", "deltae"])
         r0 = float(np.linalg.norm(case["x"]))
         case["ctrl"] = _controller(rng, ty, n, r0, r0, 0.0, -r0 * r0, False)
+        if case["ctrl"]["limit"] is not None and rng.random() < 0.4:
+            case["reuse"] = True          # second application of the same InversionEnabler (same controller object)
+            if rng.random() < 0.5 and ty == "gradnorm":
+                case["ctrl"]["level"] = 2
         res.append(case)
     return res
 
@@ -506,6 +566,8 @@ def shrink(case):
         yield dict(case, approx=None)
     if case.get("nreset") not in (None, 20):
         yield dict(case, nreset=20)
+    if case.get("reuse"):
+        yield {k: v for k, v in case.items() if k != "reuse"}
     cj = case.get("ctrl")
     if cj:
         if cj["level"] > 1:
